@@ -217,10 +217,10 @@ Module EndedEx.
     [[]; []; [(11, RSubscribed 1 1)]; [(11, RRegistered 2 24)];
      [(11, REvent 1 7 [] [vnat 1] [])];                       (* served while attached *)
      [];                                                      (* dropped *)
-     [(10, RPublished 4 12)];                                 (* nothing to 11 *)
+     [(10, RPublished 4 13)];                                 (* nothing to 11 *)
      [(10, RError c_CALL 5 [] e_no_such_procedure [] [])];    (* nothing to 11 *)
      []; [(11, RSubscribed 1 2)];
-     [(11, REvent 2 16 [] [vnat 3] [])]].                     (* joined again: served again *)
+     [(11, REvent 2 17 [] [vnat 3] [])]].                     (* joined again: served again *)
   Proof. vm_compute. reflexivity. Qed.
 
   Lemma hyps : Forall op_ok ops2 /\ k0 cfg0 + N.of_nat (List.length ops2) <= max_idN /\
